@@ -58,6 +58,8 @@ func setStateProfile() {
 	snapStructs = map[string]bool{"Nick": true, "Channel": true}
 	opaqueIfaces = map[string]bool{}
 	heapPkg, heapRoot, perTypeCounter = "state", "stateTracker", false
+	slicesOnHeap, strMapsOnHeap = false, false
+	opaqueTypes = map[string]string{}
 }
 
 func setRegistryProfile() {
@@ -66,6 +68,19 @@ func setRegistryProfile() {
 	snapStructs = map[string]bool{}
 	opaqueIfaces = map[string]bool{"Handler": true}
 	heapPkg, heapRoot, perTypeCounter = "client", "hSet", true
+}
+
+var slicesOnHeap, strMapsOnHeap = false, false // []string as (backing array address, length); map[string]string as a heap object
+var opaqueTypes = map[string]string{}          // "time.Time" -> "Time": named types of other packages carried as abstract values
+
+func setLineCopyProfile() {
+	heapStructs = map[string]bool{"Line": true}
+	inlineStructs = map[string]bool{}
+	snapStructs = map[string]bool{}
+	opaqueIfaces = map[string]bool{}
+	opaqueTypes = map[string]string{"time.Time": "Time"}
+	heapPkg, heapRoot, perTypeCounter = "client", "", false
+	slicesOnHeap, strMapsOnHeap = true, true
 }
 
 func allocNames(T string) (next, bump string) {
@@ -95,6 +110,8 @@ const (
 	hRoot   // pointer to the root struct (the state itself): Some tt, or None = nil
 	hOpaque // an interface value carried abstractly
 	hPtrs   // []*T for a heap struct T
+	hSliceS // []string with its backing array in the heap: (address or nil, length)
+	hStrMap // map[string]string as a heap object: address or nil
 )
 
 type htype struct {
@@ -133,6 +150,10 @@ func (t htype) coq() string {
 		return t.name + "_val"
 	case hPtrs:
 		return "list (option positive)"
+	case hSliceS:
+		return "option positive * Z"
+	case hStrMap:
+		return "option positive"
 	case hUnit:
 		return "unit"
 	case hTuple:
@@ -175,6 +196,8 @@ type hvar struct {
 	fields map[string]*hvar
 	order  []string
 	snap   string
+	local  string          // nl := *p: a local COPY of a heap struct of this type
+	fresh  map[string]bool // fields of a local struct holding a map made in this function
 }
 
 type hex struct {
@@ -235,6 +258,9 @@ func heapType(t types.Type) htype {
 		}
 	case *types.Slice:
 		if b, ok := u.Elem().(*types.Basic); ok && b.Kind() == types.String {
+			if slicesOnHeap {
+				return htype{k: hSliceS}
+			}
 			return htype{k: hStrs}
 		}
 		if et := heapType(u.Elem()); et.k == hPtr {
@@ -244,8 +270,16 @@ func heapType(t types.Type) htype {
 		if _, isI := u.Underlying().(*types.Interface); isI && pkgIs(u.Obj().Pkg(), heapPkg) && opaqueIfaces[u.Obj().Name()] {
 			return htype{k: hOpaque, name: u.Obj().Name()}
 		}
+		if u.Obj().Pkg() != nil {
+			if nm, ok := opaqueTypes[u.Obj().Pkg().Path()+"."+u.Obj().Name()]; ok {
+				return htype{k: hOpaque, name: nm}
+			}
+		}
 	case *types.Map:
 		kt, vt := heapType(u.Key()), heapType(u.Elem())
+		if strMapsOnHeap && kt.k == hStr && vt.k == hStr {
+			return htype{k: hStrMap}
+		}
 		if vt.k == hPtr {
 			if kt.k == hStr {
 				if vt.name == "ChanPrivs" {
@@ -279,8 +313,10 @@ func hzero(t htype) string {
 		return "false"
 	case hInt:
 		return "0"
-	case hPtr, hVal, hSnap, hRoot:
+	case hPtr, hVal, hSnap, hRoot, hStrMap:
 		return "None"
+	case hSliceS:
+		return "(None, 0)"
 	case hPtrs, hStrs:
 		return "[]"
 	case hInline:
@@ -428,7 +464,7 @@ func (h *heapTr) expr(e ast.Expr) hex {
 				t = "bool_decide (" + a.t + " = " + b.t + ")"
 			case a.ty.k == hPtr && b.ty.k == hPtr:
 				t = "bool_decide (" + a.t + " = " + b.t + ")"
-			case a.ty.k == hRoot && b.ty.k == hPtr && b.ty.name == "?":
+			case (a.ty.k == hRoot || a.ty.k == hStrMap) && b.ty.k == hPtr && b.ty.name == "?":
 				t = "bool_decide (" + a.t + " = None)"
 			case a.ty.k == hInt && b.ty.k == hInt:
 				t = "bool_decide (" + a.t + " = " + b.t + ")"
@@ -499,6 +535,21 @@ func (h *heapTr) call(x *ast.CallExpr) hex {
 					}
 					return hex{pre: pre, t: "∅", ty: t}
 				}
+				if t.k == hSliceS && len(x.Args) == 2 {
+					n := h.expr(x.Args[1])
+					if n.ty.k != hInt {
+						failf("make")
+					}
+					h.sig.writes = true
+					r := h.tmp("t")
+					return hex{pre: append(append([]string{}, n.pre...), "'(s, "+r+") ← go_make_strs s "+par(n.t)+";"), t: r, ty: t}
+				}
+				if t.k == hStrMap && len(x.Args) == 1 {
+					h.sig.writes = true
+					a := h.tmp("a")
+					nx, bp := allocNames("StrMap")
+					return hex{pre: []string{"let " + a + " := " + nx + " s in", "let s := put_StrMap (" + bp + " s) " + a + " StrMap_empty in"}, t: "Some " + a, ty: t}
+				}
 				if t.k == hPtrs && len(x.Args) == 2 {
 					if tv, ok := h.info.Types[x.Args[1]]; ok && tv.Value != nil && constant.Sign(tv.Value) == 0 {
 						return hex{t: "[]", ty: t}
@@ -524,8 +575,21 @@ func (h *heapTr) call(x *ast.CallExpr) hex {
 					return hex{pre: []string{"let " + a + " := " + nx + " s in", "let s := put_" + nm + " (" + bp + " s) " + a + " " + nm + "_zero in"},
 						t: "Some " + a, ty: htype{k: hPtr, name: nm}}
 				}
+			case "copy":
+				if len(x.Args) == 2 {
+					dst, src := h.expr(x.Args[0]), h.expr(x.Args[1])
+					if dst.ty.k == hSliceS && src.ty.k == hSliceS {
+						h.sig.writes = true
+						pre := append(append([]string{}, dst.pre...), src.pre...)
+						pre = append(pre, "s ← go_copy_strs s "+par(dst.t)+" "+par(src.t)+";")
+						return hex{pre: pre, t: "Z.min (snd " + par(dst.t) + ") (snd " + par(src.t) + ")", ty: htype{k: hInt}}
+					}
+				}
 			case "len":
 				m := h.expr(x.Args[0])
+				if m.ty.k == hSliceS {
+					return hex{pre: m.pre, t: "snd " + par(m.t), ty: htype{k: hInt}}
+				}
 				if m.ty.k == hMapSP || m.ty.k == hMapPP || m.ty.k == hMapSV {
 					return hex{pre: m.pre, t: "Z.of_nat (size " + par(m.t) + ")", ty: htype{k: hInt}}
 				}
@@ -879,6 +943,30 @@ func (h *heapTr) assign(x *ast.AssignStmt, d int, k func(int) string) string {
 	}
 	switch l := x.Lhs[0].(type) {
 	case *ast.Ident:
+		// nl := *p: a local copy of a heap struct, one variable per field
+		if st, ok := x.Rhs[0].(*ast.StarExpr); ok && x.Tok == token.DEFINE {
+			p := h.expr(st.X)
+			if p.ty.k != hPtr || !heapStructs[p.ty.name] {
+				failf("dereference %s", exprText(h.pi, st))
+			}
+			dpre, _, o := h.deref(p)
+			stt := h.structOf(p.ty.name)
+			sv := &hvar{name: l.Name, fields: map[string]*hvar{}, local: p.ty.name, fresh: map[string]bool{}}
+			out := dpre
+			for i := 0; i < stt.NumFields(); i++ {
+				fn := stt.Field(i).Name()
+				ft := heapType(stt.Field(i).Type())
+				if ft.k == hBad {
+					failf("field %s.%s", p.ty.name, fn)
+				}
+				fv := &hvar{name: l.Name + "_" + fn, ty: ft}
+				sv.fields[fn] = fv
+				sv.order = append(sv.order, fn)
+				out = append(out, "let "+fv.name+" := "+p.ty.name+"_get_"+fn+" "+o+" in")
+			}
+			h.vars[h.info.Defs[l]] = sv
+			return h.lines(out, "", d) + k(d)
+		}
 		// x := &Snap{...}: a snapshot under construction
 		if u, ok := x.Rhs[0].(*ast.UnaryExpr); ok && u.Op == token.AND && x.Tok == token.DEFINE {
 			if cl, ok := u.X.(*ast.CompositeLit); ok {
@@ -941,12 +1029,22 @@ func (h *heapTr) assign(x *ast.AssignStmt, d int, k func(int) string) string {
 		// field of a local snapshot
 		if id, ok := l.X.(*ast.Ident); ok {
 			if sv, ok := h.vars[h.info.Uses[id]]; ok && sv.fields != nil {
-				return h.lines(append(v.pre, "let "+sv.fields[l.Sel.Name].name+" := "+v.t+" in"), "", d) + k(d)
+				fv := sv.fields[l.Sel.Name]
+				if fv == nil {
+					failf("field %s", l.Sel.Name)
+				}
+				if !v.ty.eq(fv.ty) && !(v.ty.k == hPtr && v.ty.name == "?") {
+					failf("assignment of a %s to %s", v.ty.coq(), fv.name)
+				}
+				if sv.fresh != nil {
+					sv.fresh[l.Sel.Name] = isMakeCall(h.info, x.Rhs[0])
+				}
+				return h.lines(append(v.pre, "let "+fv.name+" := "+v.t+" in"), "", d) + k(d)
 			}
 		}
 		ft := heapType(h.info.TypeOf(l))
-		if ft.k == hMapSP || ft.k == hMapPP || ft.k == hMapSV {
-			failf("a map field is replaced (the identity of a map must be fixed by its owner)")
+		if ft.k == hMapSP || ft.k == hMapPP || ft.k == hMapSV || ft.k == hStrMap || ft.k == hSliceS {
+			failf("a map / slice field of a heap object is replaced (the identity of a map must be fixed by its owner)")
 		}
 		if !v.ty.eq(ft) && !((ft.k == hPtr || ft.k == hRoot) && v.ty.k == hPtr && v.ty.name == "?") {
 			failf("assignment of a %s to field %s", v.ty.coq(), l.Sel.Name)
@@ -965,7 +1063,18 @@ func (h *heapTr) assign(x *ast.AssignStmt, d int, k func(int) string) string {
 			if id, ok := se.X.(*ast.Ident); ok {
 				if sv, ok := h.vars[h.info.Uses[id]]; ok && sv.fields != nil {
 					fv := sv.fields[se.Sel.Name]
-					if fv.ty.k != hMapSV || v.ty.k != hVal {
+					if fv != nil && fv.ty.k == hStrMap && key.ty.k == hStr && v.ty.k == hStr {
+						h.sig.writes = true
+						if !sv.fresh[se.Sel.Name] {
+							failf("insertion into a map that was not made in this function (it may be the map ranged over)")
+						}
+						a, m := h.tmp("a"), h.tmp("m")
+						out := append(append([]string{}, key.pre...), v.pre...)
+						out = append(out, a+" ← "+fv.name+";", m+" ← heap_StrMap s !! "+a+";",
+							"let s := put_StrMap s "+a+" (StrMap_set "+m+" "+par(key.t)+" "+par(v.t)+") in")
+						return h.lines(out, "", d) + k(d)
+					}
+					if fv == nil || fv.ty.k != hMapSV || v.ty.k != hVal {
 						failf("assignment %s", exprText(h.pi, l))
 					}
 					// a nil copy cannot occur for an entry of the map: stored as the value
@@ -1011,6 +1120,19 @@ func (h *heapTr) recvMutexCall(call *ast.CallExpr) bool {
 		return true
 	}
 	return false
+}
+
+func isMakeCall(info *types.Info, e ast.Expr) bool {
+	call, ok := e.(*ast.CallExpr)
+	if !ok {
+		return false
+	}
+	id, ok := call.Fun.(*ast.Ident)
+	if !ok {
+		return false
+	}
+	b, ok := info.Uses[id].(*types.Builtin)
+	return ok && b.Name() == "make"
 }
 
 // the body of a method starts with recv.Lock() / recv.RLock(): a nil receiver panics at once
@@ -1101,6 +1223,26 @@ func (h *heapTr) stmt(s ast.Stmt, d int, k func(int) string) string {
 						h.sig.writes = true
 						h.sig.result = htype{k: hUnit}
 						return ind(d) + "Some hs_init\n"
+					}
+				}
+			}
+		}
+		// return &nl for a local struct: it escapes here, as a fresh heap object with the current fields
+		if len(x.Results) == 1 {
+			if u, ok := x.Results[0].(*ast.UnaryExpr); ok && u.Op == token.AND {
+				if id, ok := u.X.(*ast.Ident); ok {
+					if sv, ok := h.vars[h.info.Uses[id]]; ok && sv.fields != nil && sv.local != "" {
+						h.sig.writes = true
+						args := ""
+						for _, fn := range sv.order {
+							args += " " + par(sv.fields[fn].name)
+						}
+						a := h.tmp("a")
+						nx, bp := allocNames(sv.local)
+						v := hex{pre: []string{"let " + a + " := " + nx + " s in", "let s := put_" + sv.local + " (" + bp + " s) " + a + " (" + sv.local + "_mk" + args + ") in"},
+							t: "Some " + a, ty: htype{k: hPtr, name: sv.local}}
+						h.noteResult([]hex{v})
+						return h.ret([]hex{v}, d)
 					}
 				}
 			}
@@ -1308,6 +1450,9 @@ func (h *heapTr) loopLocals(body *ast.BlockStmt) []*hvar {
 				case *ast.SelectorExpr:
 					if id, ok := r.X.(*ast.Ident); ok {
 						if sv, ok := h.vars[h.info.Uses[id]]; ok && sv.fields != nil {
+							if fv := sv.fields[r.Sel.Name]; fv != nil && fv.ty.k == hStrMap && root != l {
+								continue // m[k] = v writes the heap map, the variable keeps its address
+							}
 							add(sv.fields[r.Sel.Name])
 						}
 					}
@@ -1332,6 +1477,9 @@ func writesIn(h *heapTr, n ast.Node) bool {
 				if se, ok := root.(*ast.SelectorExpr); ok {
 					if id, ok := se.X.(*ast.Ident); ok {
 						if sv, ok := h.vars[h.info.Uses[id]]; ok && sv.fields != nil {
+							if fv := sv.fields[se.Sel.Name]; fv != nil && fv.ty.k == hStrMap && root != l {
+								w = true // m[k] = v on a heap map
+							}
 							continue
 						}
 					}
@@ -1367,11 +1515,89 @@ func writesIn(h *heapTr, n ast.Node) bool {
 	return w
 }
 
+// for k, v := range p.M with M a map[string]string of a heap object: the map VALUE at loop entry is
+// enumerated (class field enumS); a nil map has no entries.  The body may only insert into maps
+// made in this function (checked where the insertion is translated), so the ranged object — which
+// existed before — is not written during the loop; deletions from string maps are not supported.
+func (h *heapTr) rangeStrMap(x *ast.RangeStmt, m hex, d int, k func(int) string) string {
+	se, ok := x.X.(*ast.SelectorExpr)
+	if !ok {
+		failf("range over something other than a field")
+	}
+	if id, ok := se.X.(*ast.Ident); ok {
+		if sv, ok := h.vars[h.info.Uses[id]]; ok && sv.fields != nil {
+			failf("range over the map of a local struct")
+		}
+	}
+	ast.Inspect(x.Body, func(n ast.Node) bool {
+		switch c := n.(type) {
+		case *ast.ReturnStmt, *ast.BranchStmt:
+			failf("jump inside a loop")
+		case *ast.CallExpr:
+			if id, ok := c.Fun.(*ast.Ident); ok && id.Name == "delete" {
+				failf("delete inside a loop over a string map")
+			}
+			if _, ok := c.Fun.(*ast.Ident); !ok {
+				failf("call inside a loop over a string map")
+			}
+		}
+		return true
+	})
+	locals := h.loopLocals(x.Body)
+	wr := writesIn(h, x.Body)
+	if wr {
+		h.sig.writes = true
+	}
+	var st, tys []string
+	if wr {
+		st, tys = append(st, "s"), append(tys, "HS")
+	}
+	for _, v := range locals {
+		st, tys = append(st, v.name), append(tys, par(v.ty.coq()))
+	}
+	if len(st) == 0 {
+		failf("loop without state")
+	}
+	acc, accT := tuple(st), strings.Join(tys, " * ")
+	open := "let " + st[0] + " := acc_ in"
+	if len(st) > 1 {
+		open = "let '" + acc + " := acc_ in"
+	}
+	e := h.tmp("e")
+	var bpre []string
+	bpre = append(bpre, open)
+	if id, ok := x.Key.(*ast.Ident); ok && id.Name != "_" {
+		bpre = append(bpre, "let "+h.declare(id, htype{k: hStr}).name+" := fst "+e+" in")
+	}
+	if x.Value != nil {
+		if id, ok := x.Value.(*ast.Ident); ok && id.Name != "_" {
+			bpre = append(bpre, "let "+h.declare(id, htype{k: hStr}).name+" := snd "+e+" in")
+		}
+	}
+	body := h.stmts(x.Body.List, d+3, func(d int) string { return ind(d) + "Some " + par(acc) + "\n" })
+	es := h.tmp("es")
+	var b strings.Builder
+	b.WriteString(h.lines(m.pre, "", d))
+	b.WriteString(ind(d) + es + " ← match " + m.t + " with None => Some [] | Some a_ => m_ ← heap_StrMap s !! a_; Some (enumS m_) end;\n")
+	pat := acc
+	if len(st) > 1 {
+		pat = "'" + acc
+	}
+	b.WriteString(ind(d) + pat + " ← go_foldM (fun (acc_ : " + accT + ") (" + e + " : bytes * bytes) =>\n")
+	b.WriteString(h.lines(bpre, "", d+3))
+	b.WriteString(body)
+	b.WriteString(ind(d+2) + ") " + par(acc) + " " + es + ";\n")
+	return b.String() + k(d)
+}
+
 func (h *heapTr) rangeStmt(x *ast.RangeStmt, d int, k func(int) string) string {
 	if x.Tok != token.DEFINE {
 		failf("range without :=")
 	}
 	m := h.expr(x.X)
+	if m.ty.k == hStrMap {
+		return h.rangeStrMap(x, m, d, k)
+	}
 	var enum, kty, vty = "", htype{}, htype{}
 	switch m.ty.k {
 	case hMapPP:
@@ -1711,6 +1937,64 @@ Fixpoint go_loop {S} (fuel : nat) (cond : S -> option bool) (body : S -> option 
 	b.Reset()
 	b.WriteString(top + hdr)
 	heapFunctions(&b, pi, registryTargets, "client")
+	return b.String()
+}
+
+// (*Line).Copy of client/line.go: heap struct Line (all fields; time.Time opaque), []string as
+// (backing array address, length) with the arrays in a heap of their own, map[string]string as a
+// heap object of an abstract map type; ONE allocation counter.
+func go2heapLineCopy(pkgs map[string]*pkgInfo) string {
+	setLineCopyProfile()
+	defer setStateProfile()
+	pi := pkgs["client"]
+	top := `(* GENERATED from the Go source by /verif/translator (go2heap.go) on every check run — do not edit.
+   Line.Copy (method of *Line) of client/line.go over an explicit heap of Line objects, string arrays (the backing
+   arrays of []string) and string maps; every type and primitive is a field of the class heap_ops,
+   instantiated in Proofs/GenEqLineCopy.v.  See translator/go2heap.go. *)
+` + heapPrelude
+	if pi == nil {
+		return top
+	}
+	var b strings.Builder
+	scope := pi.pkg.Types.Scope()
+	b.WriteString("Context {HS Line_obj StrMap_val Time_val : Type}.\n")
+	b.WriteString("Variable hs_next : HS -> positive.\nVariable hs_bump : HS -> HS.\n")
+	b.WriteString("Variable heap_Line : HS -> gmap positive Line_obj.\nVariable put_Line : HS -> positive -> Line_obj -> HS.\n")
+	st := scope.Lookup("Line").Type().Underlying().(*types.Struct)
+	var args []string
+	for i := 0; i < st.NumFields(); i++ {
+		ft := heapType(st.Field(i).Type())
+		if ft.k == hBad {
+			failf("field Line.%s", st.Field(i).Name())
+		}
+		args = append(args, par(ft.coq()))
+		fmt.Fprintf(&b, "Variable Line_get_%s : Line_obj -> %s.\nVariable Line_set_%s : Line_obj -> %s -> Line_obj.\n",
+			st.Field(i).Name(), ft.coq(), st.Field(i).Name(), ft.coq())
+	}
+	fmt.Fprintf(&b, "Variable Line_mk : %s -> Line_obj.\n", strings.Join(args, " -> "))
+	b.WriteString("(* the backing arrays of []string *)\nVariable heap_StrArr : HS -> gmap positive (list bytes).\nVariable put_StrArr : HS -> positive -> list bytes -> HS.\n")
+	b.WriteString("(* map[string]string objects, of an abstract map type *)\nVariable heap_StrMap : HS -> gmap positive StrMap_val.\nVariable put_StrMap : HS -> positive -> StrMap_val -> HS.\n")
+	b.WriteString("Variable StrMap_empty : StrMap_val.\nVariable StrMap_set : StrMap_val -> bytes -> bytes -> StrMap_val.\n")
+	b.WriteString("(* the order in which range visits a string map *)\nVariable enumS : StrMap_val -> list (bytes * bytes).\n")
+	hdr := classOf(b.String())
+	b.Reset()
+	b.WriteString(top + hdr)
+	b.WriteString(`(* make([]string, n): a fresh array of n empty strings *)
+Definition go_make_strs (s : HS) (n : Z) : option (HS * (option positive * Z)) :=
+  if n <? 0 then None
+  else let a := hs_next s in Some (put_StrArr (hs_bump s) a (replicate (Z.to_nat n) []), (Some a, n)).
+(* copy(dst, src): min(len dst, len src) elements, from index 0 of both backing arrays (slices with
+   an offset are not produced by the translated code); nothing is read when that number is 0; a
+   slice longer than its backing array cannot exist in Go: None *)
+Definition go_copy_strs (s : HS) (dst src : option positive * Z) : option HS :=
+  let n := Z.min (snd dst) (snd src) in
+  if n <=? 0 then Some s
+  else ad ← fst dst; as_ ← fst src; arrd ← heap_StrArr s !! ad; arrs ← heap_StrArr s !! as_;
+       if (Z.of_nat (length arrs) <? n) || (Z.of_nat (length arrd) <? n) then None
+       else Some (put_StrArr s ad (take (Z.to_nat n) arrs ++ drop (Z.to_nat n) arrd)).
+
+`)
+	heapFunctions(&b, pi, []string{"Line.Copy"}, "client")
 	return b.String()
 }
 
